@@ -1243,7 +1243,9 @@ func (e *Env) evalCall(n *ECall) SVal {
 		if l.kind == lStruct {
 			return SVal{t: v.t, typ: v.typ, sort: "Int", st: v.st, lval: true}
 		}
-		return SVal{t: vc.load(e.stOf(v), l), typ: pt.Elem(), sort: vc.d.sortOf(pt.Elem()), st: v.st}
+		dt := vc.load(e.stOf(v), l)
+		e.typeSide(dt, pt.Elem())
+		return SVal{t: dt, typ: pt.Elem(), sort: vc.d.sortOf(pt.Elem()), st: v.st}
 	case "container":
 		// container(p, "T", "f"): the *T whose struct-typed field f is stored at address p
 		v := e.eval(n.Args[0])
